@@ -1,7 +1,7 @@
 (* C10 - the chunker is a lossless, bounded, deterministic function of the stream.
    Only statements closed by [exact], each followed by Print Assumptions. *)
-From Coq Require Import List NArith Arith Lia Bool.
-From Replicat Require Import Model.Chunker Model.Clmul Proofs.ChunkerProofs Gen.SrcFacts.
+From Coq Require Import List NArith ZArith Arith Lia Bool.
+From Replicat Require Import Model.Chunker Model.Clmul Proofs.ChunkerProofs Proofs.ChunkerTie Gen.SrcFacts Gen.ChunkerGen.
 Import ListNotations.
 
 Definition valid (mn mx : nat) : Prop := 1 <= mn /\ align4 mn <= mx.
@@ -58,6 +58,33 @@ Print Assumptions C10_nonempty.
 Print Assumptions C10_junk_independent.
 Print Assumptions C10_bounds_and_segmentation.
 Print Assumptions C10_head_prefix.
+
+(* B1: the decision logic of gclmulchunker::next_cut translated from src/adapters.cpp is the model's.
+   [next_cut] = its early branches, else the scan; early branches, scan range/stride/strictness/window and
+   the fallback agree with the translated C++ for all values; the Python driver loop has the modelled shape *)
+Theorem C10_tie_next_cut_structure : forall {B} (hash : list B -> N) mn mx buf junk final,
+  next_cut hash mn mx buf junk final =
+  match model_early mn mx final (length buf) with Some n => n | None => ref_cut hash mn mx (buf ++ junk) end.
+Proof. exact (fun B => @next_cut_early B). Qed.
+Theorem C10_tie_early_branches : forall (mn mx size : nat) (final : bool),
+  option_map Z.of_nat (model_early mn mx final size) = gen_early final (Z.of_nat size) (Z.of_nat mn) (Z.of_nat mx).
+Proof. exact tie_early. Qed.
+Theorem C10_tie_scan : forall mx : nat,
+  gen_scan_start = 4%Z /\ gen_scan_stride = 4%Z /\ gen_scan_strict = true /\ gen_window_back = 4%Z /\ gen_window_bytes = 8%Z /\
+  (forall mn, gen_scan_bound mn (Z.of_nat mx) = Z.of_nat mx) /\
+  Z.of_nat (ncand mx) = Z.max 0 ((gen_scan_bound 0 (Z.of_nat mx) - gen_scan_start + gen_scan_stride - 1) / gen_scan_stride).
+Proof. exact tie_scan. Qed.
+Theorem C10_tie_fallback : forall mn mx m : nat,
+  gen_fallback_cond (Z.of_nat m) (Z.of_nat mn) (Z.of_nat mx) = (m <? mn) /\
+  gen_fallback (Z.of_nat mn) (Z.of_nat mx) = Z.of_nat (align4 mn).
+Proof. exact tie_fallback. Qed.
+Theorem C10_tie_shapes : (gen_key_shape_ok && gen_driver_loop_ok)%bool = true.
+Proof. exact tie_shapes. Qed.
+Print Assumptions C10_tie_next_cut_structure.
+Print Assumptions C10_tie_early_branches.
+Print Assumptions C10_tie_scan.
+Print Assumptions C10_tie_fallback.
+Print Assumptions C10_tie_shapes.
 
 (* non-vacuity: valid parameters exist, and the concrete chunker really cuts *)
 Example C10_valid_inhabited : valid 16 64 /\ valid 5 8 /\ valid 1 4 /\ ~ valid 5 7.
